@@ -29,6 +29,7 @@ type elem struct {
 	addRet    uint64
 	cancelInv uint64
 	cancelRet uint64
+	cancelAt  time.Duration // fake time when Cancel returned
 	delivered int
 	delivStep uint64
 	pollInv   uint64
@@ -63,6 +64,11 @@ func queue(s *simrt.Sim) {
 	addersLeft := 0
 	var spawnPollers func()
 	npoll := 1 + s.Choose(3)
+	// pollers either poll until the queue is shut down and empty, or (quota) a fixed number of times each
+	pollQuota := 0
+	if s.Choose(3) == 2 {
+		pollQuota = 1 + s.Choose(2)
+	}
 	pollersStarted := false
 	spawnPollers = func() {
 		if pollersStarted {
@@ -70,8 +76,9 @@ func queue(s *simrt.Sim) {
 		}
 		pollersStarted = true
 		for p := 0; p < npoll; p++ {
+			quota := pollQuota
 			s.Go(fmt.Sprintf("poller%d", p), func() {
-				for {
+				for n := 0; quota == 0 || n < quota; n++ {
 					inv := s.Tick()
 					v := q.Poll(true)
 					ret := s.Tick()
@@ -93,6 +100,12 @@ func queue(s *simrt.Sim) {
 					}
 					if e.cancelRet != 0 && e.cancelRet < inv {
 						s.Fail("cancel-honoured", "queue", "element %d delivered by a Poll invoked at step %d although Cancel had returned at step %d", v, inv, e.cancelRet)
+					}
+					// a delivery is decided at or after the due time (or, with an ignore-timeouts shutdown, after Shutdown was
+					// invoked): if Cancel had returned strictly before that, the element was cancelled before delivery however
+					// long the delivering Poll had been waiting
+					if e.cancelRet != 0 && e.cancelAt < e.due && !(flags&timed.IgnorePendingTimeouts != 0 && shutInv != 0 && shutInv < e.cancelRet) {
+						s.Fail("cancel-honoured", "queue:cancelled-before-due", "element %d (due %v) was delivered at %v although its Cancel had returned at %v, before it was due", v, e.due, now, e.cancelAt)
 					}
 				}
 			})
@@ -136,6 +149,7 @@ func queue(s *simrt.Sim) {
 					e.cancelInv = s.Tick()
 					h.Cancel()
 					e.cancelRet = s.Tick()
+					e.cancelAt = time.Since(start)
 					s.Logf("Cancel %d", e.id)
 				}
 			}
@@ -177,6 +191,11 @@ func queue(s *simrt.Sim) {
 		if t.Name == "shutdowner" || t.Name[:5] == "adder" {
 			s.Fail("termination", t.Name[:5]+":"+t.WaitOn, "%s blocked forever on %s", t.Name, t.WaitOn)
 		}
+		// a Poll waiting for an element to be queued while elements are queued: every element that is not cancelled or
+		// dropped is to be delivered, and this Poll is asking for one
+		if t.WaitOn == "Cond.Wait" && q.Size() > 0 && flags&timed.CancelPendingElements == 0 {
+			s.Fail("eventually-once", "queue:poll-waits-although-elements-queued", "%s is blocked in Poll waiting for an element although %d elements are queued", t.Name, q.Size())
+		}
 		s.Probe("poller-stuck-after-shutdown") // outside the statement: Shutdown only broadcasts when the heap is empty
 	}
 	// eventually exactly once
@@ -196,13 +215,16 @@ func queue(s *simrt.Sim) {
 			continue // may have been dropped by the shutdown flag
 		}
 		if e.delivered == 0 {
+			if pollQuota != 0 {
+				continue // bounded pollers: an element may be left over simply because nobody asks any more
+			}
 			if e.addRet > shutInv {
 				continue // added while/after shutting down: Add may have been refused legitimately or raced
 			}
 			s.Fail("eventually-once", "queue:shutdown-"+flagName(flags), "element %d (added before Shutdown was invoked, never cancelled) was never delivered", e.id)
 		}
 	}
-	if maxSize > 0 && flags&timed.CancelPendingElements == 0 {
+	if maxSize > 0 && flags&timed.CancelPendingElements == 0 && pollQuota == 0 {
 		want := eligible
 		if want > maxSize {
 			want = maxSize
@@ -225,6 +247,7 @@ type job struct {
 	startStep uint64
 	cancelInv uint64
 	cancelRet uint64
+	cancelAt  time.Duration
 }
 
 func executor(s *simrt.Sim) {
@@ -270,6 +293,9 @@ func executor(s *simrt.Sim) {
 					if now < j.due && !ignore {
 						s.Fail("never-early", "executor", "job %d due at %v ran at %v", j.id, j.due, now)
 					}
+					if j.cancelRet != 0 && j.cancelAt < j.due && !(ignore && shutInv < j.cancelRet) {
+						s.Fail("cancel-honoured", "executor:cancelled-before-due", "job %d (due %v) ran at %v although its Cancel had returned at %v, before it was due", j.id, j.due, now, j.cancelAt)
+					}
 					if sp.work > 0 {
 						simrt.Sleep(sp.work)
 					}
@@ -283,6 +309,7 @@ func executor(s *simrt.Sim) {
 					j.cancelInv = s.Tick()
 					j.handle.Cancel()
 					j.cancelRet = s.Tick()
+					j.cancelAt = time.Since(start)
 					s.Logf("Cancel job %d", j.id)
 				}
 			}
@@ -354,9 +381,9 @@ func taskExec(s *simrt.Sim) {
 	var tasks []*ttask
 	var cancels []*tcancel
 	var shutInv uint64
-	nact := 1 + s.Choose(3)
+	nact := 1 + s.Choose(simrt.Bound(3, 4))
 	for a := 0; a < nact; a++ {
-		n := 1 + s.Choose(4)
+		n := 1 + s.Choose(simrt.Bound(4, 6))
 		type spec struct {
 			kind  int // 0,1 schedule; 2 cancel
 			ident int
